@@ -63,6 +63,10 @@ def realloc_discipline(rep, rule, m, scope_files=None):
     return n
 
 
+def is_assert_like(x):
+    return x["kind"] == "DoStmt"
+
+
 def rules(rep, m):
     mp_files = ("src/cmi_mempool.c", "src/cmi_mempool.h")
     ex = m.need("cmi_mempool_expand")
@@ -92,68 +96,46 @@ def rules(rep, m):
         r2.fail()
     else:
         r2.ok()
-    loops = [x for x in walk(ex.body) if x["kind"] == "ForStmt"]
-    if len(loops) != 1:
-        raise AnalysisBroken("expand: expected one threading loop")
-    lp = loops[0]
-    bound = ex_x.canon(kids(lp)[2])
-    start = None
-    for x in walk(kids(lp)[0]):
-        if x["kind"] == "VarDecl" and kids(x):
-            start = (x["name"], int_value(kids(x)[0]))
-    body_st = [(render(l), render(r)) for l, r, k, n_ in
-               [(kids(y)[0], kids(y)[1], "=", y) for y in walk(kids(lp)[4]) if y["kind"] == "BinaryOperator" and y.get("opcode") == "="]]
-    r2.instance("threading loop: from %s while %s: %s" % (start, bound, body_st))
-    rep.sample({"rule": "R-C20-2", "loop_bound": bound, "body": body_st})
-    okb = start is not None and start[1] == 0 and bound == "(%s < (%s->incr_num - 1))" % (start[0], mp)
-    if not okb:
-        rep.finding(r2, ex.name, "thread:count", "the threading loop runs from %s while %s; expected incr_num - 1 links" % (start, bound),
-                    where=m.rel(loc(lp)))
-        r2.fail()
-    else:
-        r2.ok()
-    # *vp = vp + stride; vp = *vp
-    cur = None
-    stride_ok = False
-    for l, r in body_st:
-        mm = re.fullmatch(r"\*(\w+)", l)
-        if mm:
-            cur = mm.group(1)
-            mm2 = re.fullmatch(r"\(%s \+ (\w+)\)" % cur, r)
-            if mm2:
-                sv = mm2.group(1)
-                for x in walk(ex.body):
-                    if x["kind"] == "VarDecl" and x.get("name") == sv and kids(x):
-                        sc = ex_x.canon(kids(x)[0])
-                        vt = None
-                        for y in walk(ex.body):
-                            if y["kind"] == "VarDecl" and y.get("name") == cur:
-                                vt = y.get("type")
-                        # pointer arithmetic on void ** moves sizeof(void *) = 8 bytes per unit
-                        if sc == "(%s->obj_sz / 8)" % mp and vt == "void **":
-                            stride_ok = True
-                        if sc == "%s->obj_sz" % mp and vt in ("unsigned char *", "char *"):
-                            stride_ok = True
-    advance = any(l == cur and r == "*" + cur for l, r in body_st) if cur else False
-    if not (stride_ok and advance):
-        rep.finding(r2, ex.name, "thread:stride", "consecutive free objects are not obj_sz bytes apart (loop body %s)" % body_st,
-                    where=m.rel(loc(lp)))
-        r2.fail()
-    else:
-        r2.ok()
-    # last link NULL after the loop, first object is the chunk start
-    li = inv.stmt_index_containing(ex, lp)
-    tail = kids(ex.body)[li + 1:]
-    last_null = any(s["kind"] == "BinaryOperator" and s.get("opcode") == "=" and render(kids(s)[0]) == "*" + (cur or "?")
-                    and is_null_expr(kids(s)[1]) for s in tail)
-    st = {ex_x.canon(l): ex_x.canon(r) for l, r, k, n_ in inv.stores(ex) if r is not None}
-    first = st.get(mp + "->next_obj", "").startswith("cmi_aligned_alloc(")
-    if not last_null or not first:
-        rep.finding(r2, ex.name, "thread:ends", "the free list of a new chunk does not start at the chunk and end in NULL",
+    # object-index analysis of everything that follows the allocation (engine IDX)
+    from ..engines import induct
+    ix0 = FuncCtx(m, ini)
+    n_ge_1 = any(ix0.canon(assert_condition(s_)) == "(%s > 0)" % ini.params[2]["name"]
+                 for s_ in kids(ini.body) if assert_condition(s_) is not None)
+    th = induct.Threading(m, ex, ex_x, mp, n_ge_1=n_ge_1)
+    top = kids(ex.body)
+    ai = inv.stmt_index_containing(ex, allocs[0])
+    loops = [i_ for i_, s_ in enumerate(top) if i_ >= ai and s_["kind"] in ("ForStmt", "WhileStmt")]
+    if len(loops) != 1 or any(x["kind"] in ("ForStmt", "WhileStmt", "DoStmt") and x is not top[loops[0]] and
+                              not (x["kind"] == "DoStmt" and "sizeof" in render(x) or is_assert_like(x))
+                              for s_ in top[ai:] for x in walk(s_) if x is not top[loops[0]] and
+                              x["kind"] in ("ForStmt", "WhileStmt")):
+        raise AnalysisBroken("expand: expected one threading loop after the allocation")
+    th.run(top[ai:loops[0] + 1])
+    th.run_after_loop(top[loops[0] + 1:])
+    for lp_ in th.loops:
+        r2.instance("threading loop at line %s: guard %s, induction steps %s" % (lp_["line"], lp_["guard"], lp_["induction"]))
+        rep.sample({"rule": "R-C20-2", "loop": lp_})
+    r2.instance("exit cases analysed: %d" % len(th.exit_cases))
+    headok = th.head is not None and th.head.kind == "ptr" and not th.head.p
+    r2.instance("free-list head = %s" % (th.head.show() if th.head else None))
+    if not headok:
+        rep.finding(r2, ex.name, "thread:head", "the free-list head is not set to the first object of the new chunk",
                     where=m.rel(ex.where))
         r2.fail()
     else:
         r2.ok()
+    seen = set()
+    for what, ok_, where_, why in th.obligations:
+        if ok_:
+            r2.ok()
+            continue
+        r2.fail()
+        key = (what.split(" chunk+")[0], why[:40])
+        if key in seen:
+            continue
+        seen.add(key)
+        kind = "thread:count" if "object number" in why else ("thread:ends" if "NULL" in why else "thread:stride")
+        rep.finding(r2, ex.name, kind, "%s: %s" % (what, why), where=m.rel(where_) if where_ else m.rel(ex.where))
     ix = FuncCtx(m, ini)
     ist = {ix.canon(l): ix.canon(r) for l, r, k, n_ in inv.stores(ini) if r is not None}
     imp = ini.params[0]["name"]
@@ -306,6 +288,165 @@ def rules(rep, m):
         r5.fail()
     else:
         r5.ok()
+
+
+    # R-C20-6 ------------------------------------------------------------
+    r6 = rep.rule("R-C20-6", "every statically initialised pool starts in the state that expand's first-use route expects: "
+                  "cookie CMI_THREAD_STATIC, object size field = sizeof the type its objects are used as, a positive "
+                  "object count, and an empty free list / chunk list (so the first allocation goes through expand); "
+                  "fields are matched by name against the initialiser clang resolved, not by position in the macro", floor=5)
+    fields = [f_[0] for f_ in m.records.get("cmi_mempool", [])]
+    if "obj_sz" not in fields or "incr_num" not in fields:
+        raise AnalysisBroken("struct cmi_mempool no longer has obj_sz / incr_num")
+    static_cookie = None
+    for x in walk(ex.body):
+        if x["kind"] == "IfStmt":
+            mm = re.fullmatch(r"\(%s->cookie == (\d+)\)" % mp, ex_x.canon(kids(x)[0]))
+            if mm and any(callee_ref(y) == "cmi_mempool_initialize" for y in walk(kids(x)[1]) if y["kind"] == "CallExpr"):
+                static_cookie = int(mm.group(1))
+    pools = {}
+    for gk, g in m.globals.items():
+        if (g.type or "").replace("const ", "").strip() != "struct cmi_mempool":
+            continue
+        if not (m.rel(g.file) or "").startswith(("src/", "include/")):
+            continue
+        il = [c for c in kids(g.node) if c["kind"] == "InitListExpr"]
+        if not il:
+            continue
+        vals = dict(zip(fields, kids(il[0])))
+        pools[gk] = (g, vals)
+    # how each pool's objects are used: the pointer type the result of alloc is converted to, the type freed
+    uses = {}
+    for f in m.funcs.values():
+        for c in walk(f.body):
+            if c["kind"] != "CallExpr" or callee_ref(c) not in ("cmi_mempool_alloc", "cmi_mempool_free"):
+                continue
+            a0 = strip(kids(c)[1], casts=True)
+            if not (a0["kind"] == "UnaryOperator" and a0.get("opcode") == "&"):
+                continue
+            root = strip(kids(a0)[0], casts=True)
+            if root["kind"] != "DeclRefExpr":
+                continue
+            gk = m.global_key(f.unit, f, root["ref"])
+            if gk is None:
+                continue
+            if callee_ref(c) == "cmi_mempool_alloc":
+                t = None
+                chain = inv.enclosing_chain(f, c)
+                for anc in reversed(chain):
+                    if anc["kind"] in ("ImplicitCastExpr", "CStyleCastExpr") and (anc.get("type") or "").endswith("*"):
+                        t = anc.get("type")
+                        continue
+                    if anc["kind"] == "VarDecl" and t is None:
+                        t = anc.get("type")
+                    break
+                uses.setdefault(gk, []).append(("alloc", t, f.name, loc(c)))
+            else:
+                t = strip(kids(c)[2], casts=True).get("type")
+                uses.setdefault(gk, []).append(("free", t, f.name, loc(c)))
+    for gk, (g, vals) in sorted(pools.items()):
+        r6.instance("static pool %s (%s:%s)" % (g.name, m.rel(g.file), g.line))
+        where = "%s:%s" % (m.rel(g.file), g.line)
+        ck = strip(vals["cookie"], casts=True)
+        okc = ck["kind"] == "IntegerLiteral" and static_cookie is not None and int(ck["value"]) == static_cookie
+        empties = all(vals[f_]["kind"] == "ImplicitValueInitExpr" or is_null_expr(vals[f_]) or (strip(vals[f_], casts=True)["kind"] == "IntegerLiteral" and
+                                                int(strip(vals[f_], casts=True)["value"]) == 0)
+                      for f_ in ("chunk_list_len", "chunk_list_cnt", "chunk_list", "next_obj") if f_ in vals)
+        szn = strip(vals["obj_sz"], casts=True)
+        szt = szn.get("argType") if szn["kind"] == "UnaryExprOrTypeTraitExpr" else None
+        numn = strip(vals["incr_num"], casts=True)
+        oknum = (numn["kind"] == "IntegerLiteral" and int(numn["value"]) > 0) or numn["kind"] == "UnaryExprOrTypeTraitExpr"
+        want = sorted({(t or "?").replace("const ", "").rstrip("* ").strip() for k_, t, fn, w_ in uses.get(gk, []) if k_ == "alloc"})
+        rep.sample({"rule": "R-C20-6", "pool": g.name, "obj_sz": render(vals["obj_sz"]), "incr_num": render(vals["incr_num"]),
+                    "objects_used_as": want})
+        if not okc or not empties:
+            rep.finding(r6, g.name, "static:state", "static pool %s does not start as {CMI_THREAD_STATIC, ..., empty chunk list, "
+                        "empty free list}: the first allocation would not initialise it" % g.name, where=where)
+            r6.fail()
+        else:
+            r6.ok()
+        okt_ = szt is not None and bool(want) and all(w_ == szt.replace("const ", "").strip() for w_ in want)
+        if not okt_ and len(want) == 1 and want[0] != "?":
+            # not literally sizeof(T): let clang evaluate both constants in the unit's own context
+            from .. import frontend as fe_
+            try:
+                wn = fe_.witness_ast(m.repo, m.config, '#include "%s"\nenum { verif_witness_a = (%s), verif_witness_b = sizeof(%s) };\n'
+                                     % (g.file, render(vals["obj_sz"]), want[0]), "verif_witness_")
+            except AnalysisBroken:
+                wn = []
+            cv = {}
+            def rw(n):
+                yield n
+                for c_ in n.get("inner", []) or []:
+                    yield from rw(c_)
+            for w_ in wn:
+                for x in rw(w_):
+                    if x.get("kind") == "EnumConstantDecl":
+                        for y in rw(x):
+                            if y.get("kind") == "ConstantExpr" and "value" in y:
+                                cv[x["name"]] = int(y["value"])
+            if "verif_witness_a" in cv and "verif_witness_b" in cv:
+                r6.instance("%s: obj_sz = %d, sizeof(%s) = %d" % (g.name, cv["verif_witness_a"], want[0], cv["verif_witness_b"]))
+                okt_ = cv["verif_witness_a"] >= cv["verif_witness_b"] and cv["verif_witness_a"] % 8 == 0
+        if not okt_:
+            rep.finding(r6, g.name, "static:obj_sz", "static pool %s: the object size field is initialised with '%s' but its "
+                        "objects are used as %s: objects handed out would be smaller than (or unrelated to) what is stored "
+                        "in them, so live objects overlap" % (g.name, render(vals["obj_sz"]), want or "(nothing)"), where=where)
+            r6.fail()
+        else:
+            r6.ok()
+        if not oknum:
+            rep.finding(r6, g.name, "static:incr_num", "static pool %s: the object count field is initialised with '%s', not a "
+                        "positive count" % (g.name, render(vals["incr_num"])), where=where)
+            r6.fail()
+        else:
+            r6.ok()
+    # the initialiser macro: its size argument lands in obj_sz and its count argument in incr_num (witness parsed by
+    # clang against the tree's header: the positional macro and the field order of the struct have to agree)
+    from .. import frontend
+    wit = frontend.witness_ast(m.repo, m.config, '#include "cmi_mempool.h"\n'
+                               'struct cmi_mempool verif_witness_pool = CMI_MEMPOOL_STATIC_INIT(1111u, 2222u);\n',
+                               "verif_witness_pool")
+    def raw_walk(n):
+        yield n
+        for c_ in n.get("inner", []) or []:
+            yield from raw_walk(c_)
+    ils = [x for w_ in wit for x in raw_walk(w_) if x.get("kind") == "InitListExpr"]
+    if not ils:
+        raise AnalysisBroken("R-C20-6: the witness for CMI_MEMPOOL_STATIC_INIT has no initialiser list")
+    def raw_int(n):
+        for x in raw_walk(n):
+            if x.get("kind") == "IntegerLiteral":
+                return int(x["value"])
+        return None
+    wv = dict(zip(fields, [raw_int(c_) for c_ in ils[0].get("inner", [])]))
+    r6.instance("CMI_MEMPOOL_STATIC_INIT(1111, 2222) yields obj_sz=%s incr_num=%s cookie=%s" % (wv.get("obj_sz"), wv.get("incr_num"), wv.get("cookie")))
+    rep.sample({"rule": "R-C20-6", "witness": {k_: v_ for k_, v_ in wv.items()}})
+    if wv.get("obj_sz") != 1111 or wv.get("incr_num") != 2222 or wv.get("cookie") != static_cookie:
+        rep.finding(r6, "CMI_MEMPOOL_STATIC_INIT", "static:macro", "CMI_MEMPOOL_STATIC_INIT(size, count) initialises obj_sz=%s and "
+                    "incr_num=%s for size 1111 and count 2222: the positional initialiser does not match the field order of "
+                    "struct cmi_mempool, so a static pool gets objects of the wrong size" % (wv.get("obj_sz"), wv.get("incr_num")),
+                    where="src/cmi_mempool.h")
+        r6.fail()
+    else:
+        r6.ok()
+    # R-C20-7 ------------------------------------------------------------
+    r7 = rep.rule("R-C20-7", "an object is returned to the pool it came from: for every pool all allocation sites convert the "
+                  "result to one object type and all free sites pass a pointer of that same type (a tag pushed onto another "
+                  "pool's free list would later be handed out with the wrong size)", floor=10)
+    for gk, us in sorted(uses.items()):
+        types = {}
+        for k_, t, fn, w_ in us:
+            tt = (t or "?").replace("const ", "").strip()
+            types.setdefault(tt, []).append((k_, fn, w_))
+            r7.instance("%s %s as %s in %s" % (k_, gk, tt, fn))
+        if len(types) != 1:
+            minority = sorted(types.items(), key=lambda kv: len(kv[1]))[0]
+            rep.finding(r7, minority[1][0][1], "pool:type", "pool %s is used with objects of different types %s" %
+                        (gk, sorted(types)), where=m.rel(minority[1][0][2]))
+            r7.fail()
+        else:
+            r7.ok()
 
 
 def run(tier="quick"):
